@@ -98,12 +98,40 @@ func c01DisableProgram(depth, k int, mask uint, variant int, trueLevel int) stri
 		return o.String()
 	}
 	// innermost pipeline P<depth>
-	fmt.Fprintf(&sb, "pipeline P%d(\n    in  int v,\n%s)\n{\n", depth, outs(inner))
-	for j := 1; j <= k; j++ {
+	// variant 3: the siblings' own flags are produced at the top level and handed down as pipeline
+	// inputs, so a sibling's own condition and the enclosing conditions come from unrelated producers
+	gins := func() string {
+		if variant != 3 {
+			return ""
+		}
+		var o strings.Builder
+		for j := 1; j <= k; j++ {
+			fmt.Fprintf(&o, "    in  bool g%d,\n", j)
+		}
+		return o.String()
+	}
+	gpass := func(top bool) string {
+		if variant != 3 {
+			return ""
+		}
+		var o strings.Builder
+		for j := 1; j <= k; j++ {
+			if top {
+				fmt.Fprintf(&o, "        g%d = G%d.flag,\n", j, j)
+			} else {
+				fmt.Fprintf(&o, "        g%d = self.g%d,\n", j, j)
+			}
+		}
+		return o.String()
+	}
+	fmt.Fprintf(&sb, "pipeline P%d(\n    in  int v,\n%s%s)\n{\n", depth, gins(), outs(inner))
+	for j := 1; j <= k && variant != 3; j++ {
 		fmt.Fprintf(&sb, "    call ECHOFLAG as G%d(\n        want = %v,\n    )\n\n", j, mask&(1<<uint(j-1)) != 0)
 	}
 	for j := 1; j <= k; j++ {
-		if variant == 1 {
+		if variant == 3 {
+			fmt.Fprintf(&sb, "    call WORK as S%d(\n        x = self.v,\n    ) using (\n        disabled = self.g%d,\n    )\n\n", j, j)
+		} else if variant == 1 {
 			fmt.Fprintf(&sb, "    map call WORK as S%d(\n        x = split [self.v, %d],\n    ) using (\n        disabled = G%d.flag,\n    )\n\n", j, 10+j, j)
 		} else {
 			fmt.Fprintf(&sb, "    call WORK as S%d(\n        x = self.v,\n    ) using (\n        disabled = G%d.flag,\n    )\n\n", j, j)
@@ -120,13 +148,20 @@ func c01DisableProgram(depth, k int, mask uint, variant int, trueLevel int) stri
 		if lvl == 0 {
 			name = "TOP"
 		}
-		fmt.Fprintf(&sb, "pipeline %s(\n    in  int v,\n%s)\n{\n", name, outs(outer))
+		if lvl == 0 {
+			fmt.Fprintf(&sb, "pipeline %s(\n    in  int v,\n%s)\n{\n", name, outs(outer))
+			for j := 1; j <= k && variant == 3; j++ {
+				fmt.Fprintf(&sb, "    call ECHOFLAG as G%d(\n        want = %v,\n    )\n\n", j, mask&(1<<uint(j-1)) != 0)
+			}
+		} else {
+			fmt.Fprintf(&sb, "pipeline %s(\n    in  int v,\n%s%s)\n{\n", name, gins(), outs(outer))
+		}
 		fmt.Fprintf(&sb, "    call ECHOFLAG as F%d(\n        want = %v,\n    )\n\n", lvl, lvl == trueLevel)
 		if variant == 2 && lvl == depth-1 {
 			fmt.Fprintf(&sb, "    call ECHOINTS as VS(\n        want = [self.v, 5],\n    )\n\n")
 			fmt.Fprintf(&sb, "    map call P%d(\n        v = split VS.vals,\n    ) using (\n        disabled = F%d.flag,\n    )\n\n", lvl+1, lvl)
 		} else {
-			fmt.Fprintf(&sb, "    call P%d(\n        v = self.v,\n    ) using (\n        disabled = F%d.flag,\n    )\n\n", lvl+1, lvl)
+			fmt.Fprintf(&sb, "    call P%d(\n        v = self.v,\n%s    ) using (\n        disabled = F%d.flag,\n    )\n\n", lvl+1, gpass(lvl == 0), lvl)
 		}
 		sb.WriteString("    return (\n")
 		for j := 1; j <= k; j++ {
@@ -158,6 +193,7 @@ func c01DisableFamily(rng *rand.Rand, thorough bool) []c01Case {
 		// leaks from one sibling to another is visible in both directions
 		add(depth, 2, 0b10, 0, -1)
 		add(depth, 2, 0b01, 0, -1)
+		add(depth, 2, 0b01, 3, -1)
 		for i := 0; i < per; i++ {
 			k := 2 + rng.Intn(3)
 			mask := uint(rng.Intn(1 << uint(k)))
@@ -165,7 +201,7 @@ func c01DisableFamily(rng *rand.Rand, thorough bool) []c01Case {
 			if rng.Intn(5) == 0 {
 				trueLevel = rng.Intn(depth)
 			}
-			add(depth, k, mask, rng.Intn(3), trueLevel)
+			add(depth, k, mask, rng.Intn(4), trueLevel)
 		}
 	}
 	return out
